@@ -50,7 +50,8 @@ var workerCounts = []int{1, 4, 16}
 type sPool struct {
 	Name       string            `json:"name"`
 	Weight     *int32            `json:"weight"`
-	State      string            `json:"state"` // ready | not-ready | static | deleting
+	State      string            `json:"state"`           // ready | not-ready | unknown-nodeclass | unknown-validation | no-conditions | static | deleting
+	Ready      string            `json:"ready_condition"` // status of the Ready condition as read back from the API: True|False|Unknown|absent
 	Labels     map[string]string `json:"template_labels,omitempty"`
 	Zones      []string          `json:"zones,omitempty"`
 	CapTypes   []string          `json:"capacity_types,omitempty"`
@@ -192,11 +193,15 @@ func genPoolSpec(r *kit.Rand, name string, features bool) poolSpec {
 		}
 	}
 	switch {
-	case r.Chance(1, 12):
-		sp.State = "not-ready"
 	case r.Chance(1, 16):
-		sp.State = "static"
+		sp.State = "not-ready"
+	case r.Chance(1, 12):
+		sp.State = kit.Pick(r, []string{"unknown-nodeclass", "unknown-validation"})
 	case r.Chance(1, 20):
+		sp.State = "no-conditions"
+	case r.Chance(1, 20):
+		sp.State = "static"
+	case r.Chance(1, 24):
 		sp.State = "deleting"
 	}
 	return poolSpec{sp, genPoolTypes(r, name, features)}
@@ -218,6 +223,20 @@ func newWorld(r *kit.Rand, features bool) *world {
 		specs = append(specs, ps)
 	}
 	return buildWorld(specs, !r.Chance(1, 4))
+}
+
+// readCondition reads the NodePool back from the API and returns the raw status of its Ready condition.
+func readCondition(ctx context.Context, cl client.Client, name string) string {
+	np := &v1.NodePool{}
+	if err := cl.Get(ctx, client.ObjectKey{Name: name}, np); err != nil {
+		panic(err)
+	}
+	for _, c := range np.Status.Conditions {
+		if c.Type == "Ready" {
+			return string(c.Status)
+		}
+	}
+	return "absent"
 }
 
 func buildWorld(specs []poolSpec, strict bool) *world {
@@ -256,6 +275,12 @@ func buildWorld(specs []poolSpec, strict bool) *world {
 		switch sp.State {
 		case "not-ready":
 			obj.StatusConditions().SetFalse(v1.ConditionTypeNodeClassReady, "NodeClassNotReady", "not ready")
+		case "unknown-nodeclass":
+			obj.StatusConditions().SetUnknown(v1.ConditionTypeNodeClassReady)
+		case "unknown-validation":
+			obj.StatusConditions().SetUnknown(v1.ConditionTypeValidationSucceeded)
+		case "no-conditions":
+			obj.Status.Conditions = nil
 		case "deleting":
 			obj.Finalizers = append(obj.Finalizers, "verif/hold")
 		}
@@ -264,6 +289,10 @@ func buildWorld(specs []poolSpec, strict bool) *world {
 			if err := w.cl.Delete(ctx, obj); err != nil {
 				panic(err)
 			}
+		}
+		sp.Ready = readCondition(ctx, w.cl, sp.Name)
+		if (sp.Ready == "True") != (sp.State == "ready" || sp.State == "static" || sp.State == "deleting") {
+			panic(fmt.Sprintf("c19: pool %s state %s but Ready condition in the API is %s", sp.Name, sp.State, sp.Ready))
 		}
 		w.cp.InstanceTypesForNodePool[sp.Name] = ps.its
 		sp.Types = jITs(ps.its, func(string) bool { return false })
@@ -431,7 +460,8 @@ func (w *world) witness(pod *corev1.Pod) (glevels []string, jlevels []map[string
 
 func (w *world) gPools() string {
 	return kit.GListOf(w.pools, func(p sPool) string {
-		return kit.GPair(gPool(wPool{p.Name, p.Weight}), kit.GBool(p.State == "ready"))
+		ready := map[string]string{"True": "RTrue", "False": "RFalse", "Unknown": "RUnknown", "absent": "RAbsent"}[p.Ready]
+		return fmt.Sprintf("(mkNP %s %s %s %s)", gPool(wPool{p.Name, p.Weight}), ready, kit.GBool(p.State == "static"), kit.GBool(p.State == "deleting"))
 	})
 }
 
@@ -669,6 +699,7 @@ func partSolve(c *kit.Ctx) {
 	}
 	// corpus: the smallest input on which the strict reading fails (kept first, see Properties/C19.v)
 	corpusRelax(c)
+	corpusReady(c)
 	for i := 0; i < nSingle; i++ {
 		r := c.Rand.Fork()
 		w := newWorld(r, true)
@@ -707,6 +738,22 @@ func simpleType(name string) *cloudprovider.InstanceType {
 		fake.WithResources(corev1.ResourceList{corev1.ResourceCPU: qty("4"), corev1.ResourceMemory: qty("64Gi"), corev1.ResourcePods: qty("20")}),
 		fake.WithOfferings(cloudprovider.Offering{Available: true, Price: 1, Requirements: scheduling.NewLabelRequirements(map[string]string{
 			v1.CapacityTypeLabelKey: v1.CapacityTypeOnDemand, corev1.LabelTopologyZone: zones[0]})}))
+}
+
+// corpusReady: a heavier NodePool whose Ready condition is not True (Unknown because the NodeClass / validation is still
+// undecided, or no conditions written yet) must not receive the pod; the lighter Ready=True pool does.
+func corpusReady(c *kit.Ctx) {
+	for _, state := range []string{"unknown-nodeclass", "unknown-validation", "no-conditions", "not-ready"} {
+		w := buildWorld([]poolSpec{
+			{sPool{Name: "pending", Weight: lo.ToPtr(int32(100)), State: state}, []*cloudprovider.InstanceType{simpleType("pending-t0-c4")}},
+			{sPool{Name: "ok", Weight: lo.ToPtr(int32(1)), State: "ready"}, []*cloudprovider.InstanceType{simpleType("ok-t0-c4")}},
+		}, true)
+		sp := sPod{Name: "p0", CPU: "1"}
+		pod := test.UnschedulablePod(test.PodOptions{ObjectMeta: metav1.ObjectMeta{Name: sp.Name, UID: "uid-p0"},
+			ResourceRequirements: corev1.ResourceRequirements{Requests: corev1.ResourceList{corev1.ResourceCPU: qty(sp.CPU)}}})
+		kit.Apply(w.ctx, w.cl, pod)
+		runSolve(c, c.Rand.Fork(), w, []*corev1.Pod{pod}, []sPod{sp}, "corpus-ready", 600)
+	}
 }
 
 // corpusRelax: NodePool "high" (weight 100, team=x) and "low" (weight 1, team=y).
